@@ -214,6 +214,31 @@ def task_fresh(pr, repo):
                   'parser = build_parser()' in src and 'namespace=Options()' in src))
 
 
+def task_param_lookup(pr, repo):
+    ex = Executor(repo)
+    fi = repo.func('propka.input.read_parameter_file')
+    pr.under_contract(fi)
+
+    def thunk(ex, ctx):
+        tried = []
+
+        def opener(ex, ctx_, fi_, a, k, so):
+            tried.append(a[0])
+            h = record('handle', None)
+            h.attrs['__iter_items__'] = []
+            return h
+        ex.contracts['propka.input.open_file_for_reading'] = opener
+        params = record('P', None)
+        ex.call_function(fi, ['propka.cfg', params])
+        from pyvc.core import PyPath
+        import os
+        first = tried[0] if tried else None
+        ctx.oblige('PF: a parameter file name is looked up in the package directory first (a file of the same name in the working '
+                   'directory cannot shadow the shipped one)', isinstance(first, PyPath) and len(tried) == 1
+                   and os.path.dirname(first.p) == os.path.dirname(fi.module.path) and os.path.basename(first.p) == 'propka.cfg')
+    pr.explore(ex, thunk, 'read_parameter_file lookup order')
+
+
 def task_open(pr, repo):
     ex = Executor(repo)
     fi = repo.func('propka.input.open_file_for_reading')
@@ -262,7 +287,7 @@ def run(pr, repo):
     ground_nccg(pr, repo)
     census_set_iteration(pr, repo)
     # the squared cut-offs are class-level descriptors: they must keep no state shared between Parameters instances
-    pr.parallel([(task_valence, ()), (task_fresh, ()), (task_open, ()), (C18.task_squared, ())])
+    pr.parallel([(task_valence, ()), (task_fresh, ()), (task_open, ()), (task_param_lookup, ()), (C18.task_squared, ())])
     pr.assumptions += ['CPython dict insertion order; A-REFL', 'composition step; the history quantifier is covered by the bounded monitor only']
     bounded(pr)
 
@@ -288,17 +313,20 @@ def bounded(pr):
         t += out.get_charge_profile_section(mol, conformation='AVR')
         return t
 
-    def fresh(name, opts):
+    def fresh(name, opts, seed=None, cwd_cfg=None):
         code = ("import sys, io, logging\nlogging.disable(logging.CRITICAL)\nsys.path.insert(0, %r); sys.path.insert(0, %r)\n"
                 "from props import native, C03\nm = native.run_text(native.pdb_lines(%r), %r)\n"
                 "import hashlib\nsys.stdout.write(hashlib.sha256(C03_text(m).encode()).hexdigest())\n" % (native.REPO, os.path.dirname(os.path.dirname(__file__)), name, opts))
         code = code.replace('C03_text(m)', 'C03.bounded_text(m)')
-        env = dict(os.environ, PYTHONHASHSEED=str(rng.randrange(1, 10 ** 6)))
+        env = dict(os.environ, PYTHONHASHSEED=str(seed if seed is not None else rng.randrange(1, 10 ** 6)))
         d = tempfile.mkdtemp()
         try:
+            if cwd_cfg is not None:
+                open(os.path.join(d, 'propka.cfg'), 'w').write(cwd_cfg)
             p = subprocess.run([sys.executable, '-c', code], capture_output=True, text=True, env=env, cwd=d)
         finally:
-            os.rmdir(d)
+            import shutil
+            shutil.rmtree(d, ignore_errors=True)
         return p.stdout.strip()
     import hashlib
     import re
@@ -311,6 +339,19 @@ def bounded(pr):
     targets = [('3SGB-subset', []), ('1HPX', ['-d'])] if pr.tier == 'quick' else [(n, o) for n in names[:2] for o in optsets[:4]]
     for name, opts in targets:
         ref = fresh(name, opts)
+        # other hash seeds, and a working directory that holds a different file named like the shipped parameter file
+        for sd in (1, 5, 6):
+            ev += 1
+            classes.add(('hashseed', sd))
+            if fresh(name, opts, seed=sd) != ref and len(viol) < 3:
+                viol.append({'what': '%s %s: output text under PYTHONHASHSEED=%d differs from another hash seed' % (name, opts, sd), 'replay': None})
+        ev += 1
+        classes.add('cwd')
+        edited = re.sub(r'(?m)^model_pkas ASP\s+\S+', 'model_pkas ASP 5.80', open(os.path.join(native.REPO, 'propka', 'propka.cfg')).read())
+        a_ = fresh(name, opts + ['-p', 'propka.cfg'], seed=1, cwd_cfg=edited)
+        b_ = fresh(name, opts + ['-p', 'propka.cfg'], seed=1)
+        if a_ != b_ and len(viol) < 3:
+            viol.append({'what': '%s %s -p propka.cfg: result depends on the working directory (a same-named file there is picked up)' % (name, opts), 'replay': None})
         for h in range(n_hist):
             ev += 1
             # a random history of other inputs/options in THIS process, then the target
